@@ -32,8 +32,8 @@ def grid_of(name):
 def positions(G, L):
     pos = [G[0] - timedelta(seconds=5)]
     for g in G:
-        pos += [g - timedelta(seconds=1), g, g + timedelta(seconds=1),
-                g + timedelta(seconds=L if L else 2), g + timedelta(seconds=L + 1 if L else 3),
+        pos += [g - timedelta(seconds=1), g, g + timedelta(seconds=0.4),
+                g + timedelta(seconds=L if L else 2), g + timedelta(seconds=L + 0.4 if L else 3),
                 g + timedelta(seconds=45)]
     pos.append(G[-1] + timedelta(hours=1))
     return sorted(set(pos))
@@ -268,6 +268,13 @@ def run_config(cfg):
         else:
             start = 0
             plan = base_plan
+        if ep == 1:
+            # a feature appended to the state between two episodes is an observer like any other from the next reset on
+            sink4 = []
+            try:
+                env.state.features.append(LateCustom(sink4))
+            except Exception as ex:
+                return ["appending a feature to the state raised %r" % (ex,)], None
         lo, lo2 = len(sink), len(sink2)
         LO3[0] = len(SINK3[0])
         with ChoiceSeam(pick=start) as seam:
@@ -301,6 +308,11 @@ def run_config(cfg):
             msgs.append("episode %d: episode length set but no start was drawn through numpy.random.choice" % ep)
         m = check_episode(env, sink, sink2, lo, lo2, plan, idmap, kinds, quotes, trace, ncon)
         msgs += ["episode %d: %s" % (ep, x) for x in m]
+        if ep == 1 and trace["error"] is None:
+            got4 = [e[1] for e in sink4]
+            if got4 != [e[1] for e in sink2[lo2:]]:
+                msgs.append("episode 1: a feature appended to the state before this episode received %d custom events, the original single-type feature %d"
+                            % (len(got4), len(sink2) - lo2))
         outcome.append(tuple((e[0], idmap.get(e[1]), e[2], e[3]) for e in sink[lo:]))
         if msgs:
             break
